@@ -371,7 +371,7 @@ def run_sim(prop, tier):
     if not os.path.isdir(simdir):
         return None
     os.makedirs(os.path.join(VERIF, 'replay'), exist_ok=True)
-    out = os.path.join(VERIF, 'replay', '%s-sim.json' % prop)
+    out = os.path.join(VERIF, 'replay', '%s-sim.%d.json' % (prop, os.getpid()))      # per process: concurrent checks of one property do not clash
     try:
         os.unlink(out)
     except OSError:
@@ -387,7 +387,10 @@ def run_sim(prop, tier):
         return {'scenarios_run': 0, 'failures': [], 'note': 'bounded stand-in timed out'}
     if not os.path.exists(out):
         return {'scenarios_run': 0, 'failures': [], 'note': 'bounded stand-in did not run: ' + (p.stderr or p.stdout)[-300:]}
-    return json.load(open(out))
+    try:
+        return json.load(open(out))
+    finally:
+        os.unlink(out)
 
 
 def write_evidence(prop, tier, seed, r, per_oblig, n_oblig, discharged, violations, undecided, known_hits, backends, solver_seconds, wall,
